@@ -71,6 +71,10 @@ def pathsplit(urlpath):
 
     urlpath = urlpath.strip("/")
 
+    # NOTE: a path only made of slashes has no segment
+    if not urlpath:
+        return []
+
     return urlpath.split("/")
 
 
